@@ -6,6 +6,7 @@ import (
 	"fmt"
 	"math/big"
 	"strconv"
+	"strings"
 
 	"github.com/anoideaopen/foundation/core"
 	"github.com/anoideaopen/foundation/core/balance"
@@ -229,6 +230,23 @@ func c07Case(c *Ctx) error {
 			steps = append(steps, fmt.Sprintf("SProbe %d %d %d %d", seen, resDigest(a1, a2), resDigest(b1, b2), resDigest(c1, c2)))
 			jsteps = append(jsteps, map[string]interface{}{"probe_robot": seen})
 			c.Count("probe")
+		case r < 80:
+			// one batched transaction that sets several events and writes several keys: their order in the
+			// reply and in the chaincode event must not depend on in-process iteration order
+			var parts []string
+			for _, j := range rng.Perm(6) {
+				parts = append(parts, fmt.Sprintf("event,ev%d,p%d", j, j), fmt.Sprintf("put,key%d,v%d", j, j))
+			}
+			cw.nonce++
+			req := w.SignedArgs("tt", "script", users[rng.Intn(3)], strconv.FormatUint(cw.nonce, 10), strings.Join(parts, ";"))
+			data, _ := proto.Marshal(&fpb.ExecuteTasksRequest{Tasks: []*fpb.Task{{Id: w.Peer.NextTxID(), Method: "script", Args: req}}})
+			ra, dA, dB, dA2, err := run3(c07Prop{creator: robots[committedCfg].Creator, args: strArgs("executeTasks", []string{string(data)})})
+			if err != nil {
+				return err
+			}
+			steps = append(steps, fmt.Sprintf("SQuery %d %d %d", dA, dB, dA2))
+			jsteps = append(jsteps, map[string]interface{}{"multi_event_task": parts, "status": ra.Status})
+			c.Count("multi_event_task")
 		default:
 			var fn string
 			var args []string
